@@ -100,6 +100,14 @@ class Emu:
         self.assign = assign
         self.g = {}
         self.imm_const = imm_const  # the literal a clause passes to its own load_imm call
+        self.lets = {}  # local `let name = <immediate expression>;` of the clause
+
+    def imm(self, text):
+        k = _imm_int(text)
+        t = text.replace(" ", "")
+        if k is None and t in self.lets:
+            k = _imm_int(self.lets[t])
+        return k
 
     def get(self, o):
         n = o.name
@@ -129,7 +137,7 @@ class Emu:
         d = ops[0]
         if d.kind == "gpr":
             if m == "mov" and len(ops) == 2 and ops[1].kind == "imm":
-                k = _imm_int(ops[1].text)
+                k = self.imm(ops[1].text)
                 if k is None and self.imm_const is not None and "imm" in ops[1].text:
                     k = self.imm_const
                 self.g[d.name] = Bits(k) if k is not None else None
@@ -195,7 +203,7 @@ class Emu:
             return
         if base in ("pslld", "psrld") and ops[-1].kind == "imm":
             src = self.get(ops[1]) if len(ops) == 3 else self.get(d)
-            k = _imm_int(ops[-1].text)
+            k = self.imm(ops[-1].text)
             out = []
             for p in src:
                 if isinstance(p, Bits) and k is not None:
@@ -228,7 +236,7 @@ class Emu:
             self.put(d, [s[0], s[1], Bits(0), Bits(0)], True)
             return
         if base == "pshufd" and len(ops) == 3 and ops[2].kind == "imm" and ops[1].kind == "vec":
-            k = _imm_int(ops[2].text)
+            k = self.imm(ops[2].text)
             if k is None:
                 raise Unknown("`%r`" % x)
             k &= 0xFF
@@ -237,6 +245,17 @@ class Emu:
             return
         # anything else: destination unknown
         self.put(d, [None] * w, vex)
+
+
+def _local_lets(b):
+    from . import ast as A_
+
+    out = {}
+    for s_ in A_.find(b.fn["body"], "Let"):
+        n_ = A_.binding_name(s_["pat"])
+        if n_ and s_.get("init") is not None:
+            out[n_] = A_.unparse(s_["init"])
+    return out
 
 
 def _eq(a, b):
@@ -280,7 +299,7 @@ def check_lane_semantics(rule, kind, root=None):
         else:
             want = S64._lanewise(op, a, bb, len(need))
         if want is None:
-            rule.skip("x86_64 %s %s" % (kind, name), "no closed form for this opcode on %s values" % kind)
+            rule.skip("x86_64 %s %s" % (kind, name), "no closed form for this opcode on %s values" % kind, count=True)
             continue
         for desc, alias in scen:
             assign = {"T:%s" % inputs[0]: list(Lx)}
@@ -295,6 +314,7 @@ def check_lane_semantics(rule, kind, root=None):
                     if v_ is not None:
                         lit = struct.unpack("<I", struct.pack("<f", float(v_)))[0]
             em = Emu(assign, lit)
+            em.lets = _local_lets(b)
             try:
                 for x in ins:
                     if alias:
@@ -324,7 +344,7 @@ def check_lane_semantics(rule, kind, root=None):
         elif bad[0] == "value":
             rule.bad("x86|%s|%s|sem" % (kind, name), "x86_64 %s %s: %s" % (kind, name, bad[1]), "%s:%d" % (p, b.fn["ln"]))
         else:
-            rule.skip("x86_64 %s %s" % (kind, name), bad[1])
+            rule.skip("x86_64 %s %s" % (kind, name), bad[1], count=True)
 
 
 # ---------------------------------------------------------------------------
@@ -492,6 +512,7 @@ def check_mask_logic(rule, kind, root=None):
                     if v_ is not None:
                         lit = struct.unpack("<I", struct.pack("<f", float(v_)))[0]
             em = MaskEmu(assign, lit)
+            em.lets = _local_lets(b)
             try:
                 for x in ins:
                     if alias:
@@ -532,4 +553,4 @@ def check_mask_logic(rule, kind, root=None):
         elif verdict[0] == "bad":
             rule.bad("x86|%s|%s|mask" % (kind, name), "x86_64 %s %s: %s" % (kind, name, verdict[1]), "%s:%d" % (p, b.fn["ln"]))
         else:
-            rule.skip("x86_64 %s %s" % (kind, name), verdict[1])
+            rule.skip("x86_64 %s %s" % (kind, name), verdict[1], count=True)
